@@ -15,6 +15,7 @@
 #include <errno.h>
 #include <ucontext.h>
 #include <stdarg.h>
+#include "../trapvm/trapvm.h"
 
 /* ---------------------------------------------------------------- arena */
 #define PG 4096UL
@@ -578,6 +579,15 @@ static void run_case(const Case *c) {
         if (x.dh) { printf("DEST after:"); for (size_t i = 0; i < x.dbytes && i < 64; i++) printf(" %02x", x.dh[i]); printf("\n");
                     printf("DEST before:"); for (size_t i = 0; i < x.dbytes && i < 64; i++) printf(" %02x", x.dsnap[i]); printf("\n"); }
     }
+    if (P == 12) {
+        size_t first, nb;
+        if (tv_diff(&first, &nb)) {
+            char sb[128], b2[200]; tv_symbolize(tv_seg_start() + first, sb, sizeof sb); char *pl = strchr(sb, '+'); if (pl) *pl = 0;
+            report(&x, "static-footprint|changed=%s|%s", sb, relclass(&x, b2));
+            tv_restore();
+        }
+        return;
+    }
     oracle(&x);
 }
 
@@ -818,6 +828,10 @@ int main(int argc, char **argv) {
         ss((void *)h_str); sm((void *)h_mem);
     }
     sig_init();
+    if (P == 12) {
+        if (tv_init("libsafec")) { fprintf(stderr, "cannot locate the library's static segment\n"); return 2; }
+        tv_snapshot();
+    }
     if (replay) {
         Case c; if (parse_case(caseline, &c)) { fprintf(stderr, "cannot parse case\n"); return 2; }
         run_case(&c);
